@@ -53,6 +53,17 @@ pub struct PostfixOpManager {
     store: &'static Mutex<HashMap<String, Arc<PostfixOpFunc>>>,
 }
 
+// shift with a count outside 0..=63 is an error, not a panic or a masked count
+fn checked_shift(a: i64, count: i64, left: bool) -> Result<i64> {
+    let count = u32::try_from(count).map_err(|_| Error::ParamInvalid())?;
+    let ans = if left {
+        a.checked_shl(count)
+    } else {
+        a.checked_shr(count)
+    };
+    ans.ok_or(Error::ParamInvalid())
+}
+
 impl InfixOpManager {
     pub fn new() -> Self {
         static STORE: OnceCell<Mutex<HashMap<String, InfixOpConfig>>> = OnceCell::new();
@@ -74,11 +85,11 @@ impl InfixOpManager {
                 Arc::new(move |left, right| {
                     let (mut a, b) = (left.decimal()?, right.decimal()?);
                     match op {
-                        "+=" => a += b,
-                        "-=" => a -= b,
-                        "*=" => a *= b,
-                        "/=" => a /= b,
-                        "%=" => a %= b,
+                        "+=" => a = a.checked_add(b).ok_or(Error::ParamInvalid())?,
+                        "-=" => a = a.checked_sub(b).ok_or(Error::ParamInvalid())?,
+                        "*=" => a = a.checked_mul(b).ok_or(Error::ParamInvalid())?,
+                        "/=" => a = a.checked_div(b).ok_or(Error::ParamInvalid())?,
+                        "%=" => a = a.checked_rem(b).ok_or(Error::ParamInvalid())?,
                         _ => (),
                     }
                     Ok(Value::Number(a))
@@ -95,8 +106,8 @@ impl InfixOpManager {
                 Arc::new(move |left, right| {
                     let (mut a, b) = (left.integer()?, right.integer()?);
                     match op {
-                        "<<=" => a <<= b,
-                        ">>=" => a >>= b,
+                        "<<=" => a = checked_shift(a, b, true)?,
+                        ">>=" => a = checked_shift(a, b, false)?,
                         "&=" => a &= b,
                         "^=" => a ^= b,
                         "|=" => a |= b,
@@ -176,8 +187,8 @@ impl InfixOpManager {
                         "|" => a |= b,
                         "^" => a ^= b,
                         "&" => a &= b,
-                        "<<" => a <<= b,
-                        ">>" => a >>= b,
+                        "<<" => a = checked_shift(a, b, true)?,
+                        ">>" => a = checked_shift(a, b, false)?,
                         _ => (),
                     }
                     Ok(Value::from(a))
@@ -194,11 +205,11 @@ impl InfixOpManager {
                 Arc::new(move |left, right| {
                     let (mut a, b) = (left.decimal()?, right.decimal()?);
                     match op {
-                        "+" => a += b,
-                        "-" => a -= b,
-                        "*" => a *= b,
-                        "/" => a /= b,
-                        "%" => a %= b,
+                        "+" => a = a.checked_add(b).ok_or(Error::ParamInvalid())?,
+                        "-" => a = a.checked_sub(b).ok_or(Error::ParamInvalid())?,
+                        "*" => a = a.checked_mul(b).ok_or(Error::ParamInvalid())?,
+                        "/" => a = a.checked_div(b).ok_or(Error::ParamInvalid())?,
+                        "%" => a = a.checked_rem(b).ok_or(Error::ParamInvalid())?,
                         _ => (),
                     }
                     Ok(Value::from(a))
@@ -419,7 +430,9 @@ impl PostfixOpManager {
             "++",
             Arc::new(|param| {
                 let a = match param {
-                    Value::Number(a) => a + Decimal::from_i32(1).unwrap(),
+                    Value::Number(a) => a
+                        .checked_add(Decimal::from_i32(1).unwrap())
+                        .ok_or(Error::ParamInvalid())?,
                     _ => return Err(Error::ShouldBeNumber()),
                 };
                 Ok(Value::Number(a))
@@ -430,7 +443,9 @@ impl PostfixOpManager {
             "--",
             Arc::new(|param| {
                 let a = match param {
-                    Value::Number(a) => a - Decimal::from_i32(1).unwrap(),
+                    Value::Number(a) => a
+                        .checked_sub(Decimal::from_i32(1).unwrap())
+                        .ok_or(Error::ParamInvalid())?,
                     _ => return Err(Error::ShouldBeNumber()),
                 };
                 Ok(Value::Number(a))
